@@ -40,7 +40,7 @@ func (e *printEngine) runX(payload string) (string, string) {
 		return "bad-case", ""
 	}
 	text := lisp.PRINT(v)
-	return "pm=T " + roundTrip(v), hex.EncodeToString([]byte(text))
+	return "pm=T " + roundTripText(v, text), hex.EncodeToString([]byte(text))
 }
 
 func (e *printEngine) classify(payload, obs string) string { return obs }
